@@ -221,10 +221,11 @@ None."""
         if self._cachestore is not None:
             parser = self._cachestore.load(filename)
         if parser is None:
+            source_mtime_ns = os.stat(filename).st_mtime_ns
             parser = GIRParser(types_only=not self._passthrough_mode)
             parser.parse(filename)
             if self._cachestore is not None:
-                self._cachestore.store(filename, parser)
+                self._cachestore.store(filename, parser, source_mtime_ns)
 
         for include in parser.get_namespace().includes:
             if include.name not in self._parsed_includes:
